@@ -111,16 +111,37 @@ def run(rep, tier, seed):
     rep.notes["non_crash_disagreements_left_to_other_properties"] = len(bad) - ncrash
     rep.notes["non_crash_disagreement_tags"] = sorted({it["tag"] + " " + progs.outcome_delta(v["exp"], out)
                                                        for it, out, v in bad if out["how"] not in CRASH})[:60]
+    machine_model_check(rep, [it for it in items if it["tag"] == "random-program"][:150 if tier == "quick" else 1500]
+                        + [it for it in items if it["tag"].startswith("builtin")][::(40 if tier == "quick" else 8)])
     n_e2e = end_to_end(rep, tier, rnd)
     rep.cov["distinct_nontrivial"] = len({it["tag"] for it in items}) + n_e2e
     rep.cov["rule"] = ("in-process: TLC-enumerated builtin calls (and operator table in thorough), resource-bound scenarios "
                        "(recursion depth around MAX_FRAMES, locals, literals around STACK_SIZE, 255 call arguments), hostile "
-                       "boundary operations, seeded random programs; end to end: exit(n), filter-mode families with packet "
+                       "boundary operations, seeded random programs; the machine specification model-checked on the compiled code of a "
+                       "part of them; end to end: exit(n), filter-mode families with packet "
                        "input; distinct = distinct case tags; a case is non-trivial if it executes at least one operator, "
                        "builtin or call (all do)")
     rep.cov["exhaustive"] = False
     for it in items[:1]:
         rep.sample({"src": it["src"], "out": it["out"]})
+
+
+def machine_model_check(rep, its):
+    """spec level: TLC runs the bytecode machine of spec/VM.tla by itself (spec/MC_VM.tla) on what the real compiler
+    emitted for these programs: no reachable state lacks a defined step (the real VM would index out of bounds there),
+    no instruction pops an empty stack, frames nest, a normal end leaves the stack empty; deadlock checking on"""
+    from .. import vmrun, vmtrace
+    widths, _ = vmtrace.real_widths()
+    sub = [{"id": it["id"], "prog": it["prog"], "tag": it["tag"]} for it in its]
+    recs = vmrun.record(sub, widths, with_prog=False, max_events=1500)
+    bad, pid, res = vmrun.model_check(recs)
+    rep.add_tlc(res)
+    rep.notes["machine_model_checked_programs"] = len(recs)
+    rep.notes["machine_model_states"] = res.get("states", 0)
+    if bad:
+        it = [x for x in sub if x["id"] == pid]
+        rep.disagree("machine-model %s" % bad, {"invariant": bad, "src": it[0]["src"] if it else None,
+                                                  "tlc_tail": "\n".join(res["out"].splitlines()[-60:])})
 
 
 FILTER_PROGS = [
